@@ -79,6 +79,17 @@ def _worker_shape(args):
         interp = get_interp()
         c = C.REGISTRY[qualname]
         shape = c.shapes[shape_idx]
+        last = c.target.split('.')[-1]
+        if last.startswith('_') and not last.startswith('__'):
+            # a contract on a *private* helper describes an implementation detail: when the helper has been renamed, inlined or
+            # removed, the contract has no subject on this tree (the public contracts still decide the behaviour, running the
+            # new body instead of this contract)
+            try:
+                interp.lookup_qualname(c.target)
+            except KeyError:
+                return {'kind': 'shape', 'qualname': qualname, 'shape': shape.name, 'shape_idx': shape_idx, 'absent': True, 'clauses': {},
+                        'stats': dict(paths=0, infeasible=0, unsupported=[], bounded=0, solver_calls=0, cover=0, side_fail=[], unknown_feasibility=0, errors=[],
+                                      used_contracts=[], wall_s=0), 'replays': [], 'cross': None, 'contract_kind': c.kind, 'stable': shape.stable, 'seconds': 0}
         tmo = budget['timeout_ms']
         if shape.bounded_only:
             clauses = {'bounded': C.ClauseResult()}
@@ -366,6 +377,7 @@ def aggregate(prop, tier, seed, results, t_start, write_baseline, extra_mod, qui
     canary_ok = None
     extra_reports = []
     pending_native = []
+    absent_contracts = set()
     uses = {}
     canary_seen = []
     for r in results:
@@ -422,6 +434,9 @@ def aggregate(prop, tier, seed, results, t_start, write_baseline, extra_mod, qui
                 # harness (a generator and a shape builder that disagree), never a silent pass
                 checker_errors.append(f"{q}[{shp}] native evaluation skipped {cross['skipped']} of {cross['skipped'] + cross['evaluations']} generated inputs")
         if r.get('empty_domain'):
+            continue
+        if r.get('absent'):
+            absent_contracts.add(q)
             continue
         if not r['clauses'] and not st['errors']:
             # nothing could be explored at all
@@ -614,6 +629,10 @@ def aggregate(prop, tier, seed, results, t_start, write_baseline, extra_mod, qui
         'wall_s': round(time.time() - t_start, 2),
         'violations': len(seen_v),
     }
+    if absent_contracts:
+        lines.append(f'NOTE property={prop}: {len(absent_contracts)} contract(s) on private helpers have no subject on this tree (renamed / inlined / removed): '
+                     + ', '.join(sorted(absent_contracts))[:200])
+        evidence['coverage']['contracts_without_subject'] = sorted(absent_contracts)
     try:
         le = list(get_interp().load_errors)
     except Exception as e:
